@@ -21,6 +21,9 @@ PROGRAMS = [
     {"main.s": "main:\r\n    li t0, 1\r\n\taddi zero, zero, 1\r\n    li a7, 10\r\n    ecall\r\n"},
     {"main.s": "    addi zero, zero, 1\nmain:\n    call main\n    li a7, 10\n    ecall\n"},
     MULTI,
+    {"main.s": "main:\n" + "".join("    li t%d, %d\n" % (i % 3, i) for i in range(1, 13)) + "    li a7, 10\n    ecall\n"},
+    {"main.s": "# header\nmain:\n" + "".join("    li t%d, %d\n" % (i % 3, i) for i in range(1, 125)) + "    li a7, 10\n    ecall\n"},
+    {"main.s": "main:\n" + "\n" * 7 + "    li t0, 1\n    li t0, 2\n    addi zero, zero, 1\n    li t0, 3\n" + "\n" * 86 + "\tli t1, 4\n    li t1, 5\n    li t1, 6\n    li a7, 10\n    ecall\n"},
 ]
 
 
